@@ -335,15 +335,15 @@ def run(run):
             run.count('fact units')
             sites = logger_discipline(run, F, E)
             run.count('logging sites', sites)
-            method_records(run, F, E, 'V' in c)
-            action_records(run, F, E)
+            run.guard('method records', method_records, run, F, E, 'V' in c)
+            run.guard('action records', action_records, run, F, E)
             facts.drop(F)
             cfgmod.clear_cache()
     pairs = [('', 'L'), ('P', 'PL') if run.tier == 'thorough' else ('PSH', 'PSHL'), ('', 'V') if run.tier == 'thorough' else ('PH', 'PHV')]
     # configurations needed for the pairs may be outside the tier's standard list: they are extracted on demand
     for a, b in pairs:
         for v in facts.variants(run.tier):
-            differential(run, a, b, v)
+            run.guard('differential', differential, run, a, b, v)
     run.floor('C16.a', 200)
     run.floor('C16.b', 30)
     run.floor('C16.c', 100)
